@@ -15,4 +15,4 @@ Extraction "model.ml"
   all_actions action_name action_methods action_path action_id route_name resource_stmts resource_guard documented_path nf
   build_path var_texts split_args placeholder subst_items map_set names_set
   clean_rooted clean_stack dir_open strip_prefix ext_filter
-  auto_source doc_source has_body ctx_blob ctx_no_content ctx_http_error respond render_json render_jsonp render_xml rsp_init auto_pick supported ct_text ct_html ct_json ct_jsonp ct_xml.
+  auto_source doc_source has_body ctx_blob ctx_no_content ctx_http_error respond render_blob render_json render_jsonp render_xml rsp_init auto_pick supported ct_text ct_html ct_json ct_jsonp ct_xml.
